@@ -182,6 +182,44 @@ fn big_txn(ctx: &ShardCtx, nested: u32) -> BoxedStrategy<CrashCase> {
         .boxed()
 }
 
+/// Open-schema-change shape: a session changes a column's constraints (or its default) and stays open while other
+/// transactions on another table commit (which forces its log records to disk); it then commits, or never ends.
+/// After every crash point the tables must accept and reject what the acknowledged schema accepts and rejects.
+fn open_schema_change(ctx: &ShardCtx, nested: u32) -> BoxedStrategy<CrashCase> {
+    let excluded: Vec<String> = ctx.excludes.keys().cloned().collect();
+    (any::<bool>(), any::<bool>(), prop::collection::vec(0u8..12, 0..3), prop::collection::vec((any::<u16>(), 0u8..4, 0u8..12), 1..3), prop::collection::vec(0u8..12, 1..3), 0u8..3, any::<bool>(), prop::collection::vec(0u8..12, 0..3))
+        .prop_map(move |(nn0, nn1, pre, alters, others, end, flush_after, post)| {
+            let row = |v: u8| vec![AVal::Pool(v), AVal::Pool(v / 2), AVal::Pool(v), AVal::Pool(v), AVal::Pool(v)];
+            let ins = |t: u16, v: u8| AStmt::Insert { t, rows: vec![row(v)], partial: false };
+            let mut steps = vec![
+                Step::Auto(AStmt::Create { name: 0, cols: vec![ACol { ty: 0, not_null: nn0, default: None }, ACol { ty: 0, not_null: nn1, default: None }], pk: None, uniq: None }),
+                Step::Auto(AStmt::Create { name: 1, cols: vec![ACol { ty: 0, not_null: false, default: None }, ACol { ty: 3, not_null: false, default: None }], pk: None, uniq: None }),
+            ];
+            for v in pre {
+                steps.push(Step::Auto(ins(0, v)));
+            }
+            steps.push(Step::Begin(0));
+            for (col, action, val) in alters {
+                steps.push(Step::Exec(0, AStmt::AlterCol { t: 0, col, action, val: AVal::Pool(val) }));
+            }
+            for v in others {
+                steps.push(Step::Auto(ins(u16::MAX, v)));
+            }
+            match end {
+                0 => steps.push(Step::Commit(0)),
+                _ => {} // still open when the process dies
+            }
+            if flush_after && end == 0 {
+                steps.push(Step::Flush);
+            }
+            for v in post {
+                steps.push(Step::Auto(ins(u16::MAX, v)));
+            }
+            CrashCase { cfg: Cfg::default(), steps, excluded: excluded.clone(), stride: 1, nested, flush_with_open_writer: true }
+        })
+        .boxed()
+}
+
 fn shard(ctx: &mut ShardCtx, prefix: &'static str, small_cache: bool, nested: u32, quick: u64, thorough: u64, replay: fn(&str, &Value) -> CaseOut) {
     if ctx.shard == 0 {
         ctx.witnesses(&replay);
@@ -198,6 +236,9 @@ fn shard(ctx: &mut ShardCtx, prefix: &'static str, small_cache: bool, nested: u3
     let nb = ctx.share(ctx.tier.pick(32, 600));
     let s5 = big_txn(ctx, 0);
     ctx.search("crash_history", s5, nb, &move |c: &CrashCase| for_property(run_crash(c), prefix));
+    let ns = ctx.share(ctx.tier.pick(320, 6_000));
+    let s6 = open_schema_change(ctx, nested.min(1));
+    ctx.search("crash_history", s6, ns, &move |c: &CrashCase| for_property(run_crash(c), prefix));
     let nc = ctx.share(ctx.tier.pick(320, 6_000));
     let s3 = across_checkpoint(ctx, nested.min(1));
     ctx.search("crash_history", s3, nc, &move |c: &CrashCase| for_property(run_crash(c), prefix));
